@@ -9,7 +9,10 @@ import (
 )
 
 var c03Schemes = []string{"http", "https", "HTTP", "hTTps"}
-var c03Hosts = []string{"a.test", "A.Test", "a.test.", "b.test", "127.0.0.1", "[::1]", "[::1:8080]", "[0:0:0:0:0:0:0:1]", "[::ffff:1.2.3.4]", "[2001:db8::8080]", "[2001:db8::]", "xn--bcher-kva.test", "a%2Etest"}
+var c03Hosts = []string{"a.test", "A.Test", "a.test.", "b.test", "127.0.0.1", "[::1]", "[::1:8080]", "[0:0:0:0:0:0:0:1]", "[::ffff:1.2.3.4]", "[2001:db8::8080]", "[2001:db8::]", "xn--bcher-kva.test", "a%2Etest",
+	// host names with bytes outside ASCII (a Go client can express them): not UTF-8, the
+	// replacement character, and a neighbour
+	"caf\xe9.test", "caf\xef\xbf\xbd.test", "caf\xe8.test"}
 var c03Ports = []string{"", "", ":", ":80", ":443", ":8080", ":080", ":8443", ":0"}
 var c03Segs = []string{"a", "A", ".", "..", "%2e", "%2E", "%41", "%61", "~", "%7E", "%7e", "%2F", "%2f", "%20", "é", "%C3%A9", "%c3%a9", "%E9", "%e9", ";p", "a;p=1", ":", "@", "b", "", "%25", "%2541", "+", "%2B", "%00", "*", "%", "\xe9", "\xe8", "\xef\xbf\xbd",
 	// ordinary segments that merely begin or end like dot segments
@@ -61,7 +64,7 @@ func c03Rewrite(t *rapid.T, label, u string) string {
 		}
 		return u
 	}
-	switch rapid.IntRange(0, 35).Draw(t, label) {
+	switch rapid.IntRange(0, 36).Draw(t, label) {
 	case 0:
 		return rep("http://", "HTTP://")
 	case 1:
@@ -134,6 +137,8 @@ func c03Rewrite(t *rapid.T, label, u string) string {
 		return rep("\xe9", "%E9")
 	case 35:
 		return rep("\xef\xbf\xbd", "\xff\xfe")
+	case 36:
+		return rep("a.test", "caf\xe9.test")
 	}
 	return u
 }
